@@ -17,7 +17,7 @@ def check(run):
     for s in (stats.get("extra", {}) or {}).get("shapes", []):
         if s["verifications"] > s["bound"]:
             key = "bound-exceeded-" + s["shape"]
-            if s["shape"] == "layered" and not s["root_ok"]:
+            if s["shape"] in ("layered", "layered-multicap") and not s["root_ok"]:
                 key = "layered-dag"
             if s["shape"] == "attest-siblings" and s["root_ok"]:
                 key = "attest-siblings"
